@@ -205,7 +205,12 @@ def _t_qadaptive(rng, di):
                                                        "quantized_bits"]),
           "bits": rng.pick([4, 6, 8]), "per_channel": rng.chance(0.4),
           "qdelay": rng.pick([1, 2]), "po2_rounding": rng.chance(0.3),
-          "symmetric": rng.chance(0.7)}
+          "symmetric": rng.chance(0.7),
+          # the default decay (0.9999) never moves the range within a run
+          "ema_decay": rng.pick([0.0, 0.5, 0.9, 0.9999]),
+          "relu_neg_slope": rng.pick([0.0, 0.0, 0.125]),
+          "relu_upper_bound": rng.pick([None, None, 0.75, 2.0]),
+          "ema_freeze_delay": rng.pick([None, None, 2])}
 
 
 def _t_qscale(rng, di):
@@ -401,6 +406,10 @@ def _layer(l, name):
                                     quantization_delay=l.get("qdelay", 1),
                                     po2_rounding=l.get("po2_rounding", False),
                                     symmetric=l.get("symmetric", True),
+                                    ema_decay=l.get("ema_decay", 0.9999),
+                                    relu_neg_slope=l.get("relu_neg_slope", 0.0),
+                                    relu_upper_bound=l.get("relu_upper_bound"),
+                                    ema_freeze_delay=l.get("ema_freeze_delay"),
                                     name=name)
   if t == "QScaleShift":
     return qk.QScaleShift(weight_quantizer=q(l.get("wq")),
